@@ -20,9 +20,10 @@ func (h *hmac) resetTo(key []byte) {
 	h.opad = append(h.opad[:0], make([]byte, blocksize)...)
 
 	if len(key) > blocksize {
-		// If key is too big, hash it.
+		// If key is too big, hash it. The digest goes into the zeroed ipad,
+		// which is at least as long, so re-keying does not allocate.
 		h.outer.Write(key) //nolint:errcheck,gosec
-		key = h.outer.Sum(nil)
+		key = h.outer.Sum(h.ipad[:0])
 	}
 	copy(h.ipad, key)
 	copy(h.opad, key)
